@@ -49,24 +49,30 @@ func (s *flexSut) preset(n, cp int) {
 	copy(base, vals)
 	s.f.Values = base[:n]
 	s.m = clone(vals)
-	s.c.Logf("start: FlexSlice{Values: %d elements, cap %d}", n, cp)
+	if s.c.Logging() {
+		s.c.Logf("start: FlexSlice{Values: %d elements, cap %d}", n, cp)
+	}
 }
 
 // verify compares the whole sequence (Values and Len) with the model.
-func (s *flexSut) verify(op string) bool {
+func (s *flexSut) verify(op string, info ...int) bool {
 	c := s.c
+	sig := "flex-seq/" + op
+	if len(info) == 3 {
+		op = fmt.Sprintf("%s(%d values) on len %d cap %d", op, info[0], info[1], info[2])
+	}
 	var n int
 	if !c.Guard("Len", func() { n = s.f.Len() }) {
 		return false
 	}
 	vals := s.f.Values
 	if n != len(s.m) || len(vals) != len(s.m) {
-		c.Failf("flex-seq/"+op, "after %s: Len() = %d, len(Values) = %d, sequence model has %d elements (Values %v, model %v)", op, n, len(vals), len(s.m), vals, s.m)
+		c.Failf(sig, "after %s: Len() = %d, len(Values) = %d, sequence model has %d elements (Values %v, model %v)", op, n, len(vals), len(s.m), vals, s.m)
 		return false
 	}
 	for i := range vals {
 		if vals[i] != s.m[i] {
-			c.Failf("flex-seq/"+op, "after %s: Values[%d] = %d, sequence model has %d (Values %v, model %v)", op, i, vals[i], s.m[i], vals, s.m)
+			c.Failf(sig, "after %s: Values[%d] = %d, sequence model has %d (Values %v, model %v)", op, i, vals[i], s.m[i], vals, s.m)
 			return false
 		}
 	}
@@ -85,7 +91,9 @@ func (s *flexSut) doAppend(k int) bool {
 		return false
 	}
 	s.m = append(s.m, vs...)
-	c.Logf("Append(%v) -> len %d cap %d", vs, len(s.f.Values), cap(s.f.Values))
+	if c.Logging() {
+		c.Logf("Append(%v) -> len %d cap %d", vs, len(s.f.Values), cap(s.f.Values))
+	}
 	c.Add("flex_ops/Append", 1)
 	if k == 0 {
 		c.Add("flex_append_nothing", 1)
@@ -93,7 +101,7 @@ func (s *flexSut) doAppend(k int) bool {
 	if cap(s.f.Values) != capBefore {
 		c.Add("flex_append_reallocated", 1)
 	}
-	return s.verify(fmt.Sprintf("Append(%d values)", k))
+	return s.verify("Append", k, len(s.m)-k, capBefore)
 }
 
 func (s *flexSut) doPrepend(k int) bool {
@@ -106,7 +114,9 @@ func (s *flexSut) doPrepend(k int) bool {
 		return false
 	}
 	s.m = append(clone(vs), s.m...)
-	c.Logf("Prepend(%v) on len %d cap %d -> len %d cap %d", vs, n2, cp, len(s.f.Values), cap(s.f.Values))
+	if c.Logging() {
+		c.Logf("Prepend(%v) on len %d cap %d -> len %d cap %d", vs, n2, cp, len(s.f.Values), cap(s.f.Values))
+	}
 	c.Add("flex_ops/Prepend", 1)
 	nc := k + n2
 	switch {
@@ -131,7 +141,7 @@ func (s *flexSut) doPrepend(k int) bool {
 	if n2 == 0 {
 		c.Add("flex_prepend_to_empty", 1)
 	}
-	return s.verify(fmt.Sprintf("Prepend(%d values) on len %d cap %d", k, n2, cp))
+	return s.verify("Prepend", k, n2, cp)
 }
 
 func (s *flexSut) doGet(i int) bool {
@@ -141,7 +151,9 @@ func (s *flexSut) doGet(i int) bool {
 	if !c.Guard("Get", func() { v, ok = s.f.Get(i) }) {
 		return false
 	}
-	c.Logf("Get(%d) -> %d, %v", i, v, ok)
+	if c.Logging() {
+		c.Logf("Get(%d) -> %d, %v", i, v, ok)
+	}
 	c.Add("flex_ops/Get", 1)
 	if i >= 0 && i < len(s.m) {
 		if !ok || v != s.m[i] {
@@ -167,7 +179,9 @@ func (s *flexSut) removal(name string, i int, call func() (int, bool)) bool {
 	if !c.Guard(name, func() { v, ok = call() }) {
 		return false
 	}
-	c.Logf("%s -> %d, %v ; len %d cap %d -> len %d cap %d", name, v, ok, lenBefore, capBefore, len(s.f.Values), cap(s.f.Values))
+	if c.Logging() {
+		c.Logf("%s -> %d, %v ; len %d cap %d -> len %d cap %d", name, v, ok, lenBefore, capBefore, len(s.f.Values), cap(s.f.Values))
+	}
 	c.Add("flex_ops/"+name, 1)
 	if i >= 0 && i < len(s.m) {
 		want := s.m[i]
@@ -227,7 +241,9 @@ func (s *flexSut) doSub(start, end int, adopt bool) bool {
 		return false
 	}
 	want := refSub(s.m, start, end)
-	c.Logf("SubSlice(%d, %d) on len %d -> %d elements, cap %d", start, end, len(s.m), len(child.Values), cap(child.Values))
+	if c.Logging() {
+		c.Logf("SubSlice(%d, %d) on len %d -> %d elements, cap %d", start, end, len(s.m), len(child.Values), cap(child.Values))
+	}
 	c.Add("flex_ops/SubSlice", 1)
 	if !eqSeq(child.Values, want) {
 		c.Failf("flex-subslice", "SubSlice(%d, %d) of %v = %v, documented window is %v", start, end, s.m, child.Values, want)
@@ -327,7 +343,9 @@ func flexMixCase(c *ev.Case) {
 	switch rng.Intn(4) {
 	case 0:
 		c.Add("flex_start_zero_value", 1)
-		c.Logf("start: zero FlexSlice")
+		if c.Logging() {
+			c.Logf("start: zero FlexSlice")
+		}
 	case 1:
 		n := rng.Intn(20)
 		s.preset(n, n)
@@ -470,7 +488,9 @@ func flexSelfArgCase(c *ev.Case) {
 			}
 			old := s.m
 			s.m = append(clone(argCopy), s.m...)
-			c.Logf("Prepend(Values[%d:%d]...) = Prepend(%v) on %v (cap %d) -> %v", a, b, argCopy, old, cp, s.f.Values)
+			if c.Logging() {
+				c.Logf("Prepend(Values[%d:%d]...) = Prepend(%v) on %v (cap %d) -> %v", a, b, argCopy, old, cp, s.f.Values)
+			}
 			c.Add("flex_selfarg_prepend", 1)
 			if cp >= ln+(b-a) && a > 0 && b > a {
 				c.Add("flex_selfarg_prepend_within_capacity_offset_arg", 1)
@@ -486,7 +506,9 @@ func flexSelfArgCase(c *ev.Case) {
 			}
 			old := s.m
 			s.m = append(clone(s.m), argCopy...)
-			c.Logf("Append(Values[%d:%d]...) = Append(%v) on %v (cap %d) -> %v", a, b, argCopy, old, cp, s.f.Values)
+			if c.Logging() {
+				c.Logf("Append(Values[%d:%d]...) = Append(%v) on %v (cap %d) -> %v", a, b, argCopy, old, cp, s.f.Values)
+			}
 			c.Add("flex_selfarg_append", 1)
 			if !eqSeq(s.f.Values, s.m) {
 				c.Failf("flex-selfarg/Append", "f.Values = %v (cap %d); f.Append(f.Values[%d:%d]...) i.e. Append(%v) gives %v, a sequence gives %v", old, cp, a, b, argCopy, s.f.Values, s.m)
